@@ -307,9 +307,11 @@ Definition is_cmp_tok (t : token) : bool :=
   isT t TyEq || isT t TyLt || isT t TyGt || isT t TyNeq || isT t TyLtEq || isT t TyGtEq
   || isT t TyTilde || isT t TyTildeAsterisk || isT t TyNotTilde || isT t TyNotTildeAsterisk.
 
-(* glued to a primary: function-call parenthesis, qualifier dot, subscript bracket; MATCH..AGAINST *)
+(* glued to a primary: function-call parenthesis, qualifier dot, subscript bracket; MATCH..AGAINST; the
+   clauses that may follow the closing parenthesis of a function call (WITHIN GROUP, FILTER, OVER) *)
 Definition cont8 (t : token) : bool :=
-  isT t TyLParen || isT t TyPeriod || isT t TyLBracket || litfold t "AGAINST".
+  isT t TyLParen || isT t TyPeriod || isT t TyLBracket || litfold t "AGAINST"
+  || isT t TyWithin || isT t TyFilter || isT t TyOver.
 Definition cont7 (t : token) : bool := isT t TyDoubleColon || isT t TyJsonOp.
 Definition cont6 (t : token) : bool := isT t TyAsterisk || isT t TyMul || isT t TyDiv || isT t TyMod.
 Definition cont5 (t : token) : bool := isT t TyPlus || isT t TyMinus.
